@@ -26,6 +26,37 @@ var c14Templates = []string{
 	/* 11 */ "local v\x01 = 1\nlocal function v\x02(v\x03)\n return \x0f\nend\nlocal v\x04 = function(v\x05) return \x0f end\n",
 }
 
+// expression contexts the prefix is typed in: the text between `q = ` and the prefix, and the text after
+// the cursor that closes it. None of them changes which names are visible.
+var c14Contexts = [][2]string{
+	{"", ""},
+	{"f(", ")"},
+	{"f(1, ", ")"},
+	{"\"x\"..", ""},
+	{"\"x\" .. ", ""},
+	{"{}..", ""},
+	{"w ..", ""},
+	{"w..", ""},
+	{"f(x)..", ""},
+	{"1 + ", ""},
+	{"1+", ""},
+	{"-", ""},
+	{"not ", ""},
+	{"#", ""},
+	{"(", ")"},
+	{"{", "}"},
+	{"{ k = ", " }"},
+	{"{ 1,", "}"},
+	{"t[", "]"},
+	{"w and ", ""},
+	{"w == ", ""},
+	{"w<", ""},
+	{"w or(", ")"},
+	{"2^", ""},
+	{"1 //", ""},
+	{"w~=", ""},
+}
+
 func c14has(list []string, n string) bool {
 	for _, x := range list {
 		if x == n {
@@ -55,8 +86,13 @@ func VerifRun_C14() {
 		switch {
 		case c == 0x0e:
 			if k == pick {
-				src = append(src, []byte("q = v")...)
+				ci := 0
+				if nctx := verifParam("CTX"); nctx > 1 {
+					ci = verifConcretize(verifRange("ctx", 0, nctx-1))
+				}
+				src = append(src, []byte("q = "+c14Contexts[ci][0]+"v")...)
 				cursor = len(src)
+				src = append(src, []byte(c14Contexts[ci][1])...)
 			}
 			k++
 		case c == 0x0f: // expression position
